@@ -87,8 +87,10 @@ def ixTotal (impl : String) : String × String :=
       [ ( s ( o stack* ( O stack* (c C stack*)? | c C )? )? S? )* ] (q Q?)* ( + | ! )
 
     where `stack` is `p P` or `q Q` (a `q` may stay unanswered only when the pop fails, i.e. right before the
-    error), a step without `S` is the last one, and `+`/`!` end the run. -/
-def lifecycleOk (ev : List Char) : Bool :=
+    error), a step without `S` is the last one, and `+`/`!` end the run.  Stack events after a script change
+    (`C stack*`) belong to the pay-to-script-hash hand-over only (the verdict pop and the restored stack); in any
+    other run (`p2sh = false`) the documented order "stack push/pop > script change" leaves none there. -/
+def lifecycleOk (p2sh : Bool) (ev : List Char) : Bool :=
   -- states: 0 expect '['; 1 between steps; 2 after 's'; 3 inside opcode (after 'o'); 4 after 'O';
   --         5 after 'c' (expect 'C'); 6 after 'C'; 7 step finished with 'S'; 8 after ']' ; 9 done
   --         pending: 0 none, 1 after 'p' (expect 'P'), 2 after 'q' (expect 'Q' or failure)
@@ -113,8 +115,8 @@ def lifecycleOk (ev : List Char) : Bool :=
         | 4, 'q' => go r 4 2
         | 4, 'c' => go r 5 0
         | 5, 'C' => go r 6 0
-        | 6, 'p' => go r 6 1
-        | 6, 'q' => go r 6 2
+        | 6, 'p' => if p2sh then go r 6 1 else false
+        | 6, 'q' => if p2sh then go r 6 2 else false
         | 2, 'S' => false
         | 3, 'S' => false
         | 4, 'S' => if failing then false else go r 7 0
@@ -143,7 +145,7 @@ def ixDbg (args : List String) (impl : String) : String × String :=
       let model := s!"{vs} same=1 ev={fieldD f "ev"} t={"|".intercalate (tr.reverse.map showSnap)}"
       let pred := if impl.startsWith "PANIC" then "false:panic"
         else if fieldD f "same" != "1" then "false:debugger-changed-the-execution"
-        else if !lifecycleOk (fieldD f "ev").toList then "false:callback-order-outside-lifecycle"
+        else if !lifecycleOk (hasFlag flags fBip16 && !hasFlag flags fAfterGenesis && Script.isP2SH lock) (fieldD f "ev").toList then "false:callback-order-outside-lifecycle"
         else "true"
       (model, pred)
     | _, _, _ => ("bad-op", "n/a")
